@@ -115,7 +115,7 @@ def handleTable (args : List String) : Verdict :=
     let flagOk := n == m && (rows.zip back).all fun ((_, _, f, _), (_, _, f', _)) => f == f'
     let errOk := yerr == 0 || (yerr2 == 1 && n == m && (rows.zip back).all fun ((_, _, _, e), (_, _, _, e')) => near e e')
     let ok := xyOk && flagOk && errOk
-    -- the code as it is reads x, y and the flag only: that is what the correspondence expects
+    -- correspondence: values and flags; the error column is part of the property clause
     pure { agree := xyOk && flagOk, propOk := ok, tag := s!"table-{if yerr == 1 then "yerr" else "plain"}",
            msg := s!"C08-TABLE-{if !xyOk then "VALUES" else if !flagOk then "FLAGS" else "ERRCOLUMN"} rows {n}->{m} errorColumn {yerr}->{yerr2}" }
   match p.run args with
